@@ -13,19 +13,22 @@ MANIFEST = {
             "re-bound to what they were): a variable first assigned inside the block is not bound after it, and a parameter "
             "that shadows an outer variable leaves it with its previous type — for EVERY body (assignments and nested blocks "
             "at any depth; the statements do not depend on what the body does); inside the block parameter i has the i-th "
-            "declared type. Tie: the model is run on the block structure of generated programs and compared with what ti "
+            "declared type; for a receiver of union type each parameter is the union over the variants of what the variant's "
+            "method declares for the position, NilClass where it declares fewer (C17_union_receiver). Tie: union receivers of "
+            "2-3 variants of different classes (arrays, ranges, hashes) with 1-3 block variables are run through ti and every "
+            "parameter is compared with `union_declared` by vm_compute; the model is run on the block structure of generated programs and compared with what ti "
             "prints after each block (vm_compute); end to end, generated block calls (do/end and braces) over arrays, "
             "arrays of pairs, hashes, ranges, strings and integers with 0-3 parameters, shadowing, locals and nesting two "
             "deep, after an ordinary call resolved earlier in the file, are compared with the declared block_parameters "
             "resolved against the receiver at every dbtp.",
     "note": "Trusted: Coq kernel + vm_compute; lib/blockgen.py (declared block_parameters of the shipped configuration, resolved "
-            "by hand for 13 receiver/method pairs). The resolution of Unify / Flatten / Item against the receiver "
+            "by hand for 17 receiver/method pairs). The resolution of Unify / Flatten / Item against the receiver "
             "(appendParameterBeforeTypeCalculate) is exercised end to end only.",
     "technique": "Coq proof (scope discipline of snapshot/restore, independent of the body); correspondence by vm_compute on the "
                  "variable table after blocks; end-to-end comparison with declared block parameter types",
 }
 REQUIRES = ["Model/Blocks.v"]
-RULE = ("1-3 top-level block calls per program from 13 receiver/method pairs, 0-3 parameters (30% shadowing an outer variable), "
+RULE = ("1-3 top-level block calls per program from 17 receiver/method pairs (4 of them union receivers), 0-3 parameters (30% shadowing an outer variable), "
         "0-3 locals, nesting <= 2; dbtp of every parameter, local and outer variable inside, after nested blocks and after the "
         "block; non-trivial = nesting, shadowing or surplus parameters")
 TRUSTED = []
@@ -56,9 +59,6 @@ def part_e2e(ctx, part):
             part.count(note)
             if got.get(row) == want:
                 part.agreed += 1
-            elif note == "parameter of a union receiver" and got.get(row) in ("untyped", "Unknown"):
-                part.failures.append(Failure("union_receiver_block_param", "the block parameter of a call on a union receiver (Array or Range) is untyped",
-                                             {"shape": "block on a receiver of union type"}))
             else:
                 kind = {"block local after block": "block_local_leaks", "outer variable after block": "outer_not_restored"}.get(note, "wrong_parameter_type")
                 part.failures.append(Failure(kind, "row %d (%s): expected %s, ti reports %s" % (row, note, want, got.get(row)),
@@ -129,15 +129,69 @@ def part_model_tie(ctx, part):
     part.agreed += len(terms) - len(bad)
 
 
-PARTS = [part_model_tie, part_e2e]
+UNION_VARIANTS = [   # receiver text, class, what `each` declares for it
+    ("[1, 2]", "Array", ["Integer"]), ("[1.5]", "Array", ["Float"]), ('["a"]', "Array", ["String"]),
+    ("(1..3)", "Range", ["Integer"]), ("{a: 1.5}", "Hash", ["untyped", "Float"]), ('{a: "s"}', "Hash", ["untyped", "String"]),
+    ("{a: 1}", "Hash", ["untyped", "Integer"]),
+]
 
 
-def replay_finding(ctx, k):
-    if k["id"] == "C17-union-receiver":
+def part_union_receiver_tie(ctx, part):
+    """u = c ? V1 : V2 [: V3]; u.each do |p0, ..| — every parameter against `union_declared` (vm_compute)"""
+    r = ctx.rng("union")
+    cases = []
+    for _ in range(ctx.n(60, 500)):
+        k = r.choice([2, 2, 3])
+        vs = []
+        for v in r.sample(UNION_VARIANTS, len(UNION_VARIANTS)):
+            if v[1] not in [w[1] for w in vs]:
+                vs.append(v)
+            if len(vs) == k:
+                break
+        n = r.choice([1, 1, 2, 2, 3])
+        lines = ["c = true"]
+        if len(vs) == 2:
+            lines.append("u = c ? %s : %s" % (vs[0][0], vs[1][0]))
+        else:
+            lines.append("h = c ? %s : %s" % (vs[0][0], vs[1][0]))
+            lines.append("u = c ? h : %s" % vs[2][0])
+        ps = ["p%d" % i for i in range(n)]
+        lines.append("u.each %s |%s|" % ("do", ", ".join(ps)))
+        rows = []
+        for p in ps:
+            lines.append("  dbtp %s" % p); rows.append(len(lines))
+        lines.append("end")
+        cases.append((vs, n, "\n".join(lines) + "\n", rows))
+
+    def run1(c):
         with C.Workdir() as wd:
-            x = wd.ti([wd.write("c = true\nu = c ? [1, 2] : (1..3)\nu.each do |e|\n  dbtp e\nend\n", "t.rb")])
-        return "t.rb:::4:::untyped" in x.out
-    return None
+            return wd.ti([wd.write(c[2], "t.rb")])
+    outs = C.pmap(run1, cases, par=8)
+    terms, kept = [], []
+    for (vs, n, src, rows), x in zip(cases, outs):
+        part.evaluations += 1
+        if x.timeout:
+            continue
+        got = {}
+        for l in x.out.split("\n"):
+            m = re.match(r'^t\.rb:::(\d+):::(.*)$', l)
+            if m:
+                got.setdefault(int(m.group(1)), m.group(2))
+        if n > 1 or len(vs) > 2:
+            part.nontrivial.add(src)
+        obs = C.coq_list([C.coq_str(got.get(row, "<none>")) for row in rows])
+        decl = C.coq_list([C.coq_list([C.coq_str(t) for t in v[2]]) for v in vs])
+        terms.append("(%d, %s, %s)" % (n, decl, obs))
+        kept.append(src)
+        part.sample({"variants": [v[1] for v in vs], "block_variables": n})
+    fn = ("fun c => let '(n, rows, obs) := c in list_eqb String.eqb (firstn n (union_declared string \"NilClass\" unify_printed n rows)) obs")
+    bad = corr.coq_mismatches(["Model.Blocks"], "nat * list (list string) * list string", fn, terms, chunk=150)
+    for i in bad:
+        part.mismatches.append({"fn": "Do.unionBlockParameters", "program": kept[i]})
+    part.agreed += len(terms) - len(bad)
+
+
+PARTS = [part_model_tie, part_union_receiver_tie, part_e2e]
 
 
 def replay(path):
